@@ -290,10 +290,13 @@ type txnState struct {
 	curLen    map[cellKey]int
 	cur       map[cellKey]Val // simulated value of the cells written so far
 	curHas    map[cellKey]bool
+	opSerial  int             // serial number of the operation being generated
+	varOp     map[cellKey]int // operation that issued the length-changing merge on a cell
 }
 
 func (g *Gen) genWrites(m *Model, o txnGenOpts, ts *txnState, rowID int64, isNew bool, n int, noMerge bool) []Write {
 	var ws []Write
+	ts.opSerial++
 	for _, c := range g.pickCols(m, o, n) {
 		ck := cellKey{c.Name, rowID}
 		reps := 1
@@ -316,11 +319,15 @@ func (g *Gen) genWrites(m *Model, o txnGenOpts, ts *txnState, rowID int64, isNew
 				w.V = g.mergeDelta(c, len(cv.S))
 				res := mergeVal(c.Kind, cv, has, w.V)
 				lenChanging := c.Kind.Stringy() && len(res.S) != len(w.V.S)
-				if ts.varMerged[ck] && !lenChanging {
-					continue // boundary (KF-VARLEN-MERGE-REORDER): after a length-changing merge only further length-changing merges may touch the cell
+				// boundary (KF-VARLEN-MERGE-REORDER): after a length-changing merge only further length-changing
+				// merges issued by the SAME operation (consecutive in the buffer, hence in the same block section)
+				// may touch the cell; in a later section even such a merge is shadowed by the appended Put
+				if ts.varMerged[ck] && (!lenChanging || ts.varOp[ck] != ts.opSerial) {
+					continue
 				}
-				if lenChanging {
+				if lenChanging && !ts.varMerged[ck] {
 					ts.varMerged[ck] = true
+					ts.varOp[ck] = ts.opSerial
 				}
 				ts.cur[ck], ts.curHas[ck] = res, true
 			} else {
@@ -351,7 +358,7 @@ func (g *Gen) genWrites(m *Model, o txnGenOpts, ts *txnState, rowID int64, isNew
 // genTxn builds one transaction against the current model state.
 func (g *Gen) genTxn(m *Model, live []uint32, o txnGenOpts) TxnSpec {
 	ts := &txnState{written: map[int64]bool{}, deleted: map[int64]bool{}, varMerged: map[cellKey]bool{}, keysMade: map[string]bool{}, keysGone: map[string]bool{}, curLen: map[cellKey]int{},
-		cur: map[cellKey]Val{}, curHas: map[cellKey]bool{}}
+		cur: map[cellKey]Val{}, curHas: map[cellKey]bool{}, varOp: map[cellKey]int{}}
 	nops := 1 + g.rng.Intn(o.MaxOps)
 	var spec TxnSpec
 	keyed := m.KeyCol != ""
